@@ -147,8 +147,17 @@ def oracle(run: runner.Run, oc: Outcome) -> None:
                             by_h.setdefault(c.hid, []).append((c, persisted))
                 for hid, pairs in by_h.items():
                     h = allspecs.get(hid)
-                    if h is None or h.get('subs'):
-                        continue  # parents are re-invoked for their children by design
+                    if h is not None and h.get('subs'):
+                        # parents are re-invoked for their children by design, and each such re-entry counts as an
+                        # attempt: with retries=N the parent is entered at most N times (un-persisted entries aside)
+                        n_ = h.get('opts', {}).get('retries')
+                        if n_ is not None and len(pairs) > n_ + sum(1 for _, p in pairs if not p):
+                            oc.add('C11/retries-exceeded', 'parent',
+                                   f"handler {hid} of {uid} (with sub-handlers) was entered {len(pairs)} times (retry kwargs "
+                                   f"{[c.retry for c, _ in pairs]}) with retries={n_}", uid=uid, hid=hid)
+                        continue
+                    if h is None:
+                        continue
                     calls = [c for c, _ in pairs]
                     if _check_sequence(oc, 'handler', uid, hid, h, calls, default_backoff,
                                        counted=[p for _, p in pairs]):
